@@ -1,8 +1,18 @@
 /- C03 — Deserializers are memory-safe, input-bounded and source-independent on any bytes.
-   Proved here, for every configuration, nesting limit and byte string: the JSON deserializer never takes more bytes from
-   its reader than the input has (the invariant `consumed + unread = length` through all routines, AJ/Lemmas/JDPos.lean).
+   Proved here, for every configuration, nesting limit, filter and byte string:
+   * the JSON deserializer (unfiltered and filtered) and the MessagePack deserializer never take more bytes from their
+     reader than the input has (invariant `consumed + unread = length` through all routines:
+     AJ/Lemmas/JDPos.lean, JDPosF.lean, MDPos.lean);
+   * `parseNumber` never indexes the powers-of-ten tables out of range (AJ/Lemmas/NumFault.lean);
+   * the fuel `2 * length + 4` of the JSON and MessagePack models is never exhausted, so the models are total on the
+     six documented codes (AJ/Lemmas/Fuel.lean, FuelF.lean, MDPos.lean).
    Memory safety of the binary itself is observed (ASan/UBSan, exactly-sized blocks), not proved. -/
 import AJ.Lemmas.JDPos
+import AJ.Lemmas.JDPosF
+import AJ.Lemmas.MDPos
+import AJ.Lemmas.NumFault
+import AJ.Lemmas.Fuel
+import AJ.Lemmas.FuelF
 namespace C03
 open JD
 
@@ -11,4 +21,74 @@ theorem json_reads_within_input (cfg : Cfg) (limit : Nat) (input : List Byte) :
     (run cfg limit input).2.2 ≤ input.length := run_pos_le cfg limit input
 
 example : (run {} 10 [0x5B, 0x31, 0x2C, 0x32, 0x5D]).2.2 = 5 := by decide +kernel
+
+/-- the same with a filter: skipped values are still read inside the input -/
+theorem json_filtered_reads_within_input (cfg : Cfg) (limit : Nat) (flt : Flt) (input : List Byte) :
+    (frun cfg limit flt input).2.2 ≤ input.length := frun_pos_le cfg limit flt input
+
+-- `{"a":[1,2],"b":3}` with the filter `{"b":true}`: the array under "a" is skipped, all 17 bytes are read
+example : (frun {} 10 (.doc (some (.obj [([0x62], .bool true)])))
+    [0x7B, 0x22, 0x61, 0x22, 0x3A, 0x5B, 0x31, 0x2C, 0x32, 0x5D, 0x2C, 0x22, 0x62, 0x22, 0x3A, 0x33, 0x7D]).2.2 = 17 := by
+  decide +kernel
+-- truncated input: everything is read, nothing more
+example : (frun {} 10 (.doc none) [0x5B, 0x31, 0x2C]).2.2 = 3 := by decide +kernel
+
+/-- MessagePack: never more bytes taken than supplied, for any bytes / limit / filter -/
+theorem msgpack_reads_within_input (env : MD.Env) (limit : Nat) (flt : Flt) (input : List Byte) :
+    (MD.run env limit flt input).2.2 ≤ input.length := MD.run_pos_le env limit flt input
+
+-- `[1, "ab"]` = 92 01 A2 61 62
+example : (MD.run {} 10 .all [0x92, 0x01, 0xA2, 0x61, 0x62]).2.2 = 5 := by decide +kernel
+-- a str32 header announcing 4 GiB with 2 bytes behind it: the short read stops at the end of the input
+example : (MD.run {} 10 .all [0xDB, 0xFF, 0xFF, 0xFF, 0xFF, 0x61, 0x62]).2.2 ≤ 7 := by decide +kernel
+
+/-- `make_float` never indexes a powers-of-ten table out of range: the exponent that reaches the binary64 tables has
+    `|e| ≤ 325 < 2^9` (9 entries), the one that reaches the binary32 tables `|e| ≤ 38 < 2^6` (6 entries) -/
+theorem parseNumber_no_fault (cfg : Cfg) (s : List Byte) : parseNumber cfg s ≠ .fault := parseNumber_ne_fault cfg s
+
+-- "1e-325": the most negative exponent that reaches the tables
+example : parseNumber {} [0x31, 0x65, 0x2D, 0x33, 0x32, 0x35] ≠ .fault := parseNumber_no_fault _ _
+example : parseNumber {} [0x31, 0x65, 0x2D, 0x33, 0x32, 0x35] = .f64 0 := by decide +kernel
+-- "1e308" (308 = 0b100110100: the 9th binary64 entry is used) and "1e38" (binary32 tables)
+example : parseNumber {} [0x31, 0x65, 0x33, 0x30, 0x38] = .f64 9214871658872686752 := by decide +kernel
+example : parseNumber {} [0x31, 0x65, 0x33, 0x38] = .f32 2123789978 := by decide +kernel
+
+/-- termination of the JSON model inside its fuel: `Code.fuel` ("FAULT") is never returned -/
+theorem json_no_fault (cfg : Cfg) (limit : Nat) (input : List Byte) : (run cfg limit input).1 ≠ .fuel :=
+  run_ne_fuel cfg limit input
+
+-- deep nesting `[[[[` uses two units of fuel per byte; the result is IncompleteInput, not FAULT
+example : (run {} 10 [0x5B, 0x5B, 0x5B, 0x5B]).1 = .incomplete := by decide +kernel
+example : (run { comments := true } 10 [0x2F, 0x2A, 0x2A, 0x2F, 0x5B, 0x31, 0x2C, 0x32, 0x5D]).1 = .ok := by decide +kernel
+
+/-- the same for the filtered JSON parser (skipping routines included) -/
+theorem json_filtered_no_fault (cfg : Cfg) (limit : Nat) (flt : Flt) (input : List Byte) :
+    (frun cfg limit flt input).1 ≠ .fuel := frun_ne_fuel cfg limit flt input
+
+-- everything skipped: `[[[[1]]]]` under an unbound filter
+example : (frun {} 10 (.doc none) [0x5B, 0x5B, 0x5B, 0x5B, 0x31, 0x5D, 0x5D, 0x5D, 0x5D]).1 = .ok := by decide +kernel
+
+/-- termination of the MessagePack model inside its fuel -/
+theorem msgpack_no_fault (env : MD.Env) (limit : Nat) (flt : Flt) (input : List Byte) :
+    (MD.run env limit flt input).1 ≠ .fuel := MD.run_ne_fuel env limit flt input
+
+-- array32 announcing 2^32-1 elements over an empty rest: IncompleteInput, the element loop does not spin
+example : (MD.run {} 10 .all [0xDD, 0xFF, 0xFF, 0xFF, 0xFF]).1 = .incomplete := by decide +kernel
+example : (MD.run {} 10 .all [0x91, 0x91, 0x91, 0xC0]).1 = .ok := by decide +kernel
+/-- the six documented `DeserializationError` codes -/
+def documented : List Code := [.ok, .empty, .incomplete, .invalid, .noMemory, .tooDeep]
+
+theorem documented_of_ne_fuel {c : Code} (h : c ≠ .fuel) : c ∈ documented := by
+  cases c <;> first | exact absurd rfl h | decide
+
+/-- every run of the three deserializer models ends with one of the six documented codes -/
+theorem json_code_documented (cfg : Cfg) (limit : Nat) (input : List Byte) :
+    (run cfg limit input).1 ∈ documented := documented_of_ne_fuel (json_no_fault cfg limit input)
+theorem json_filtered_code_documented (cfg : Cfg) (limit : Nat) (flt : Flt) (input : List Byte) :
+    (frun cfg limit flt input).1 ∈ documented := documented_of_ne_fuel (json_filtered_no_fault cfg limit flt input)
+theorem msgpack_code_documented (env : MD.Env) (limit : Nat) (flt : Flt) (input : List Byte) :
+    (MD.run env limit flt input).1 ∈ documented := documented_of_ne_fuel (msgpack_no_fault env limit flt input)
+
+example : (run {} 0 [0x5B, 0x5D]).1 = .tooDeep := by decide +kernel
+example : (MD.run {} 10 .all []).1 = .empty := by decide +kernel
 end C03
